@@ -395,7 +395,9 @@ def str_eq_guards(prog, fn):
         if c is None or t.get("t") is None:
             continue
         lits = []
-        if c.endswith("::eq") and "PartialEq" in c:
+        negated = False
+        if (c.endswith("::eq") or c.endswith("::ne")) and "PartialEq" in c:
+            negated = c.endswith("::ne")          # `x != "lit"`: the same test with the branches swapped
             for a in t["args"]:
                 lits += operand_strs(prog, fn, a)
         elif c.endswith("[T]>::contains") and t.get("args"):
@@ -408,6 +410,8 @@ def str_eq_guards(prog, fn):
             tgt = {v: x for v, x in tt["targets"]}
             true_bb = tt["otherwise"] if 0 in tgt else tgt.get(1)
             false_bb = tgt.get(0, tt["otherwise"])
+            if negated:
+                true_bb, false_bb = false_bb, true_bb
             for lit in lits:
                 out.append((b, lit, true_bb, false_bb))
     return out
